@@ -340,4 +340,99 @@ theorem onType_camel_view (ren : String → String) (reg : List (String × Addr)
     exact ⟨a, by simp [onLeaf], by simp only [onLeaf]; exact ShowsSrc.refl' h, by
       simp only [onLeaf]; rw [typeV_of_read ht]; simp [tview, hk, renV]⟩
 
+/-! ### the loops of `on_schema` -/
+
+theorem typeV_keep_readable {h h' : Heap} (g : ShowsSrc h h') {a : Addr} (r : TypeReadable h a) : typeV h' a = typeV h a := by
+  obtain ⟨v, hv, hf⟩ := typeV_full_of_readable r
+  rw [typeV_grow g hv hf, hv]
+
+theorem typeV_ren_grow {ren : String → String} {h0 h h' : Heap} (g : ShowsSrc h h') {a0 a : Addr} (r : TypeReadable h0 a0)
+    (hv : typeV h a = (typeV h0 a0).map (renV ren)) : typeV h' a = (typeV h0 a0).map (renV ren) := by
+  obtain ⟨v, hv0, hf⟩ := typeV_full_of_readable r
+  rw [hv0] at hv ⊢
+  simp only [Option.map_some] at hv ⊢
+  exact typeV_grow g hv (fullT_ren hf)
+
+theorem visitTypes_camel_view (ren : String → String) (reg : List (String × Addr)) :
+    ∀ (l : List (String × Addr)) (h : Heap), (∀ e, e ∈ l → isProtected e.1 = false → TypeReadable h e.2) →
+      ShowsSrc h (visitTypes (.camel ren) reg h l).1 ∧
+      (∀ x, x ∈ (visitTypes (.camel ren) reg h l).2 → ∃ a', x.2 = some a' ∧ ∃ e, e ∈ l ∧ e.1 = x.1 ∧ isProtected e.1 = false ∧
+        typeV (visitTypes (.camel ren) reg h l).1 a' = (typeV h e.2).map (renV ren)) ∧
+      (∀ e, e ∈ l → isProtected e.1 = false → (∃ x, x ∈ (visitTypes (.camel ren) reg h l).2 ∧ x.1 = e.1) ∨
+        typeV (visitTypes (.camel ren) reg h l).1 e.2 = (typeV h e.2).map (renV ren)) := by
+  intro l
+  induction l with
+  | nil => intro h _; exact ⟨ShowsSrc.refl' h, by simp [visitTypes], by simp⟩
+  | cons e0 rest ih =>
+    intro h hall
+    obtain ⟨n, a⟩ := e0
+    have hrest : ∀ e, e ∈ rest → isProtected e.1 = false → TypeReadable h e.2 := fun e he => hall e (by simp [he])
+    simp only [visitTypes]
+    split
+    · rename_i hp
+      obtain ⟨s2, c2, d2⟩ := ih h hrest
+      refine ⟨s2, ?_, ?_⟩
+      · intro x hx
+        obtain ⟨a', e1, e, he, k1, k2, k3⟩ := c2 x hx
+        exact ⟨a', e1, e, by simp [he], k1, k2, k3⟩
+      · intro e he hnp
+        simp only [List.mem_cons] at he
+        rcases he with rfl | he
+        · simp at hnp; simp [hnp] at hp
+        · exact d2 e he hnp
+    · rename_i hp
+      have hnp0 : isProtected n = false := by simpa using hp
+      have r0 : TypeReadable h a := hall (n, a) (by simp) hnp0
+      obtain ⟨a', e1, g1, v1⟩ := onType_camel_view ren reg h a r0
+      obtain ⟨s2, c2, d2⟩ := ih (onType (.camel ren) reg h a).1 (fun e he hnp => (hrest e he hnp).grow g1)
+      refine ⟨g1.trans' s2, ?_, ?_⟩
+      · intro x hx
+        split at hx
+        · simp only [List.mem_cons] at hx
+          rcases hx with rfl | hx
+          · exact ⟨a', e1, (n, a), by simp, rfl, hnp0, typeV_ren_grow s2 r0 v1⟩
+          · obtain ⟨a'', e2, e, he, k1, k2, k3⟩ := c2 x hx
+            exact ⟨a'', e2, e, by simp [he], k1, k2, by rw [k3, typeV_keep_readable g1 (hrest e he k2)]⟩
+        · obtain ⟨a'', e2, e, he, k1, k2, k3⟩ := c2 x hx
+          exact ⟨a'', e2, e, by simp [he], k1, k2, by rw [k3, typeV_keep_readable g1 (hrest e he k2)]⟩
+      · intro e he hnp
+        simp only [List.mem_cons] at he
+        rcases he with rfl | he
+        · split
+          · exact Or.inl ⟨(n, (onType (.camel ren) reg h a).2), List.mem_cons_self, rfl⟩
+          · rename_i hne
+            have hsame : (onType (.camel ren) reg h a).2 = some a := by simpa using hne
+            rw [e1] at hsame
+            cases hsame
+            exact Or.inr (typeV_ren_grow s2 r0 v1)
+        · rcases d2 e he hnp with ⟨x, hx, hxe⟩ | hv
+          · left
+            refine ⟨x, ?_, hxe⟩
+            split
+            · simp [hx]
+            · exact hx
+          · exact Or.inr (by rw [hv, typeV_keep_readable g1 (hrest e he hnp)])
+
+theorem visitDirs_camel_grow (ren : String → String) (reg : List (String × Addr)) :
+    ∀ (l : List (String × Addr)) (h : Heap), (∀ e, e ∈ l → ∃ d, h.readDir e.2 = some d ∧ ∀ x, x ∈ d.args → ∃ g, h.readArg x = some g) →
+      ShowsSrc h (visitDirs (.camel ren) reg h l).1 := by
+  intro l
+  induction l with
+  | nil => intro h _; exact ShowsSrc.refl' h
+  | cons e0 rest ih =>
+    intro h hall
+    obtain ⟨n, a⟩ := e0
+    obtain ⟨d, hd, hargs⟩ := hall (n, a) (by simp)
+    have g1 : ShowsSrc h (onDirective (.camel ren) reg h a).1 := by
+      simp only [onDirective, hd, dirHidden, Bool.false_eq_true, if_false]
+      obtain ⟨s1, _, _⟩ := args_camel_view (onArgument_camelHook ren reg) d.args h hargs
+      split
+      · exact s1.trans' ((ShowsSrc.refl' _).alloc _)
+      · exact s1
+    simp only [visitDirs]
+    refine g1.trans' (ih _ ?_)
+    intro e he
+    obtain ⟨d', hd', ha'⟩ := hall e (by simp [he])
+    exact ⟨d', g1.readDir hd', fun x hx => by obtain ⟨q, hq⟩ := ha' x hx; exact ⟨q, g1.readArg hq⟩⟩
+
 end PyGql.Heap.Own
